@@ -197,6 +197,15 @@ func (P *Prog) releaseSummaries() map[*ssa.Function]map[int]bool {
 						}
 					}
 				}
+				// an interface call (`errs.Free()` on a ZogIssues value): any module method of that name
+				// that releases its receiver makes this a release of the receiver
+				if ci.invoke != nil && len(ci.args()) > 0 {
+					for m, ps := range sum {
+						if ps[0] && m.Name() == ci.invoke.Name() && m.Signature.Recv() != nil {
+							mark(cvi(ci.args()[0]))
+						}
+					}
+				}
 			})
 		}
 	}
@@ -599,6 +608,15 @@ func (P *Prog) checkRelease(r *Result) {
 					}
 				}
 			}
+			// a release through an interface (`errs.Free()` on a ZogIssues value)
+			if ci.invoke != nil && len(ci.args()) > 0 {
+				for m, ps := range sums {
+					if ps[0] && m.Name() == ci.invoke.Name() && m.Signature.Recv() != nil {
+						rels = append(rels, rel{in, b, i, cvi(ci.args()[0]), deferred, "interface " + ci.invoke.Name()})
+						break
+					}
+				}
+			}
 		})
 		if len(rels) == 0 {
 			continue
@@ -889,7 +907,9 @@ func (P *Prog) checkReleaseMultiplicity(r *Result, rule string) {
 				if ci == nil || ci.static == nil {
 					return
 				}
-				if !inLoop(b) {
+				// releasing an element needs a loop over the list; handing the whole list on to a function
+				// that releases its elements does not
+				if !inLoop(b) && !releasesElems[ci.static] {
 					return
 				}
 				if sums[ci.static] != nil || releasesElems[ci.static] {
